@@ -410,7 +410,9 @@ def compare_history(model, impl, project=None):
                 if a['html'] != b['html']:
                     return 'call %d: html differs: model %r impl %r' % (k, a['html'][:300], b['html'][:300])
                 return 'call %d: diagnostics differ: model %r impl %r' % (k, a['log'][:6], b['log'][:6])
-    if 'state' in model and 'state' in impl:
+    # the session is compared only when every call returned: a failed call leaves the implementation in an intermediate
+    # state that the model's failure outcome does not carry
+    if 'state' in model and 'state' in impl and all(c['status'] == 'ok' for c in mc) and all(c['status'] == 'ok' for c in ic):
         if model['state'] != impl['state']:
             for key in model['state']:
                 if model['state'][key] != impl['state'].get(key):
